@@ -785,10 +785,11 @@ func (w *World) RedefineCall(target *argmapper.Func, args []argmapper.Arg) (rf *
 			continue
 		}
 		l := Label{Name: v.Name, Type: ti, Sub: v.Subtype}
-		if IsIface(ti) && v.Name != "" && w.ProvideIfaceInputs {
-			// a NAMED input of interface type can only be given a value of
-			// exactly that (static) type by a function that returns it: the
-			// caller hands the redefined function a provider
+		if IsIface(ti) && w.ProvideIfaceInputs {
+			// an input of interface type can only be given a value of exactly
+			// that (static) type by a function that returns it (a NAMED one
+			// cannot be supplied in any other way): the caller hands the
+			// redefined function a provider
 			nProviders++
 			fs := &FuncSpec{ID: 900 + nProviders, InForm: FormPos, OutForm: FormStruct,
 				Out: []Label{{Name: v.Name, Type: ti, Sub: v.Subtype, Dyn: Implementers(ti)[0]}}}
